@@ -420,6 +420,80 @@ theorem c02_create_reaches_method_with_its_entity (F : Codec.FloatLaws) (C : Cod
   simp only [hkeys, Dec.bind, decodeQuery, hcreate, hparams, isBatchKeyed,
     Option.map_some, Option.getD_some, decodeBody, hschema, hj, ofTRes, Bool.false_eq_true, ↓reduceIte]
 
+/-- **An `update`, end to end with no codec hypothesis left.** For every resource and entity record of
+every schema: an `update` made through the generated client — keys in the path, the entity as
+the JSON body — reaches exactly its method and the resource sees the caller's keys and the caller's
+entity (normalised). The body half of `hcodec` is C01's byte-level JSON round trip
+(`c01_json_roundtrip_bytes`, under its hypotheses about strconv and valid UTF-8 text). -/
+theorem c02_update_reaches_method_with_its_entity (F : Codec.FloatLaws) (C : Codec.ConvLaws) (N : Codec.NumLaws)
+    (env : Env) (hS : Codec.schemaOKb env = true)
+    (roots : List Routing.Node) (cfg : Cfg) (r : ResSpec) (c : Call) (node : Routing.Node)
+    (hnode : nodeFor roots r.segs = some node)
+    (hcreate : r.method.kind = .update) (hparams : r.method.params = Option.none)
+    (sn : TName) (hschema : r.schema = some sn) (v : Value) (hcb : c.body = .entity v)
+    (hvk : ∀ k ∈ c.keys, Codec.ValOK k) (hv : Codec.ValOK v)
+    (kvs : List (Bytes × Doc)) (henc : encode (wcfg constsV2 env) encFuel [] (.ref sn) v = .ok (.obj kvs))
+    (htext : Codec.DocTextOK (.obj kvs))
+    (texts : List Bytes) (ht : keyTexts constsV2 env (keyTys r.method.onEntity r.segs) c.keys = some texts)
+    (hnames : ∀ s ∈ r.segs, ∀ ch ∈ s.name, ch ≠ 47)
+    (htexts : ∀ t ∈ texts, (∀ ch ∈ t, ch ≠ 47) ∧ Routing.validateRor2Input (strOf t) = true)
+    (hkind : KindOk constsV2 r node (stringQuery []))
+    (hpfx : (strOf cfg.pfx).toList.getLast? ≠ some '/')
+    (u : Url.URL) (hurl : UrlLaw cfg ((r.segs.head?.map (·.name)).getD [])
+      (joinPath (pathSegsB r.method.onEntity r.segs texts)) Option.none u)
+    (hb : Tunnel.TokenBoundary cfg.boundary)
+    (hfresh : TunnelSpec.BoundaryFresh cfg.boundary [] (renderJson (.obj kvs))) :
+    ∃ a sent, clientEncode constsV2 env r c = some a ∧ wireRequest constsV2 cfg a = .ok sent ∧
+      serverSees constsV2 env roots cfg r sent =
+        .invoked ⟨List.zipWith (Codec.norm env encFuel) (keyTys r.method.onEntity r.segs) c.keys,
+          Option.none, .entity (Codec.norm env encFuel (.ref sn) v)⟩ := by
+  have hqp : queryPairs constsV2 env r c = some Option.none := by
+    simp [queryPairs, hcreate, hparams, isBatchKeyed]
+  have hbd : bodyDoc constsV2 env r c = some (some (.obj kvs)) := by
+    simp [bodyDoc, hcreate, hcb, hschema, henc, toOpt]
+  have hkeys := c02_keys_read_back F env hS _ c.keys texts hvk ht
+  have hjson := Codec.c01_json_roundtrip_bytes env F C N hS 0 encFuel (.ref sn) v kvs hv henc htext
+  have hne : renderJson (.obj kvs) ≠ [] := by
+    cases kvs <;> simp [renderJson]
+  refine c02_call_reaches_method constsV2 c02_constants_ok_v2 env roots cfg r c node hnode texts ht Option.none hqp
+    (some (.obj kvs)) hbd hnames htexts (by simp) (by simpa using hkind) hpfx u (by simpa using hurl) hb
+    (by simpa using hfresh) (by simpa using hne) _ ?_
+  have hj : unmarshalJson (jsonTCfg env 0) (.ref sn) (renderJson (.obj kvs)) =
+      some (.ok (Codec.norm env encFuel (.ref sn) v) []) := hjson
+  simp only [hkeys, Dec.bind, decodeQuery, hcreate, hparams, isBatchKeyed,
+    Option.map_some, Option.getD_some, decodeBody, hschema, hj, ofTRes, Bool.false_eq_true, ↓reduceIte]
+
+/-- **A `delete`, end to end with no codec hypothesis left**: keys in the path, nothing else; the
+resource sees the caller's keys. -/
+theorem c02_delete_reaches_method_with_its_keys (F : Codec.FloatLaws) (env : Env) (hS : Codec.schemaOKb env = true)
+    (roots : List Routing.Node) (cfg : Cfg) (r : ResSpec) (c : Call) (node : Routing.Node)
+    (hnode : nodeFor roots r.segs = some node)
+    (hdel : r.method.kind = .delete) (hparams : r.method.params = Option.none) (hcb : c.body = .none)
+    (hvk : ∀ k ∈ c.keys, Codec.ValOK k)
+    (texts : List Bytes) (ht : keyTexts constsV2 env (keyTys r.method.onEntity r.segs) c.keys = some texts)
+    (hnames : ∀ s ∈ r.segs, ∀ ch ∈ s.name, ch ≠ 47)
+    (htexts : ∀ t ∈ texts, (∀ ch ∈ t, ch ≠ 47) ∧ Routing.validateRor2Input (strOf t) = true)
+    (hkind : KindOk constsV2 r node (stringQuery []))
+    (hpfx : (strOf cfg.pfx).toList.getLast? ≠ some '/')
+    (u : Url.URL) (hurl : UrlLaw cfg ((r.segs.head?.map (·.name)).getD [])
+      (joinPath (pathSegsB r.method.onEntity r.segs texts)) Option.none u)
+    (hb : Tunnel.TokenBoundary cfg.boundary)
+    (hfresh : TunnelSpec.BoundaryFresh cfg.boundary [] []) :
+    ∃ a sent, clientEncode constsV2 env r c = some a ∧ wireRequest constsV2 cfg a = .ok sent ∧
+      serverSees constsV2 env roots cfg r sent =
+        .invoked ⟨List.zipWith (Codec.norm env encFuel) (keyTys r.method.onEntity r.segs) c.keys,
+          Option.none, .none⟩ := by
+  have hqp : queryPairs constsV2 env r c = some Option.none := by
+    simp [queryPairs, hdel, hparams, isBatchKeyed]
+  have hbd : bodyDoc constsV2 env r c = some Option.none := by
+    simp [bodyDoc, hdel, hcb]
+  have hkeys := c02_keys_read_back F env hS _ c.keys texts hvk ht
+  refine c02_call_reaches_method constsV2 c02_constants_ok_v2 env roots cfg r c node hnode texts ht Option.none hqp
+    Option.none hbd hnames htexts (by simp) (by simpa using hkind) hpfx u (by simpa using hurl) hb
+    (by simpa using hfresh) (by simp) _ ?_
+  simp only [hkeys, Dec.bind, decodeQuery, hdel, hparams, isBatchKeyed, Option.map_none, Option.getD_none,
+    decodeBody, List.isEmpty_nil, ↓reduceIte, Bool.false_eq_true]
+
 /-- **Whether query tunnelling is triggered makes no difference.** Two configurations that differ
 only in the tunnelling threshold: the server sees the same thing (both are what the closure makes of
 the untunnelled request — C14 applied on both sides). -/
